@@ -6,9 +6,9 @@ ALL = ['C%02d' % i for i in range(1, 21)]
 
 CLAIMED = {}   # filled from manifest.d/<id>.json
 
-DISABLED = set()   # property ids whose driver exists but is not yet registered
+ENABLED = set(open(os.path.join(V, 'tools', 'enabled.txt')).read().split())   # property ids whose check has been accepted
 
-PLANNED = 'not yet built in this round (planned: see DESIGN.md section 9); no check is registered, so nothing is claimed'
+PLANNED = 'check under construction in this round (see DESIGN.md section 9); not registered yet, so nothing is claimed'
 
 def main():
     d = os.path.join(V, 'manifest.d')
@@ -16,7 +16,7 @@ def main():
         for f in sorted(os.listdir(d)):
             if f.endswith('.json'):
                 pid = f[:-5]
-                if os.path.exists(os.path.join(V, 'harness', 'drivers', pid.lower() + '.py')) and pid not in DISABLED:
+                if os.path.exists(os.path.join(V, 'harness', 'drivers', pid.lower() + '.py')) and pid in ENABLED:
                     CLAIMED[pid] = json.load(open(os.path.join(d, f)))
     checks = []
     for pid in ALL:
